@@ -30,6 +30,9 @@ def run_check(prop: str, thorough: bool, root=None, overlay=None, quiet=False, w
         mod = importlib.import_module(f'tcverif.rules.{prop.lower()}')
         A = Analysis(root, overlay)
         mod.run(A, R, thorough)
+        from .rules import iteration, shared
+        iteration.run(A, R, prop)
+        shared.run(A, R, prop)
         R.extra.setdefault('units_analysed', A.units())
         if thorough and write:
             # checker validation on in-memory variants of the current tree; reported, never decides the exit code
